@@ -45,7 +45,7 @@ if [ -z "${SKIP_CONFIRM:-}" ]; then
     (cd "$SRC/demo" && find . -name '*.go' | while read f; do rm -f "$WT/$f"; done)
   fi
 fi
-cd /verif
+cd "$(dirname "$(readlink -f "$0")")/.."
 for P in "$@"; do
   OUT="$(VERIF_REPO="$WT" ./check.sh "$P" "${TIER:-quick}" 2>&1)"; code=$?
   echo "RESULT $NAME check=$P exit=$code $(echo "$OUT" | grep -c '^VIOLATION') violation(s)"
